@@ -48,7 +48,28 @@ pub fn with<R>(f: impl FnOnce(&mut Ledger) -> R) -> R {
 
 /// Forget everything (start of a case).
 pub fn reset() {
-    with(|l| *l = Ledger::default());
+    // keep the vectors' capacity: engines that record allocator traffic must not see the ledger grow
+    with(|l| {
+        let mut drops = core::mem::take(&mut l.drops);
+        let mut after = core::mem::take(&mut l.after_drop);
+        let mut log = core::mem::take(&mut l.drop_log);
+        let mut parent = core::mem::take(&mut l.parent);
+        drops.clear();
+        after.clear();
+        log.clear();
+        parent.clear();
+        *l = Ledger { drops, after_drop: after, drop_log: log, parent, ..Ledger::default() };
+    });
+}
+
+/// pre-size the ledger so that creating up to `n` elements allocates nothing
+pub fn reserve(n: usize) {
+    with(|l| {
+        l.drops.reserve(n);
+        l.after_drop.reserve(n);
+        l.drop_log.reserve(2 * n);
+        l.parent.reserve(n);
+    });
 }
 
 pub fn snapshot() -> Ledger {
